@@ -94,14 +94,31 @@ pub fn generate(rng: &mut Rng, max_resources: usize, max_pipelines: usize) -> De
             decl.push_str("[[rssl::bindless]]\n");
             features.push("bindless".into());
         }
+        // the type, or the whole array type, named by a typedef (the front end refuses register() on an array type that comes from a typedef)
+        let has_register = (group.is_some() && style == 1) || style == 2;
+        let via_typedef = rng.chance(1, 5) && !(array.is_some() && has_register);
+        if via_typedef {
+            let dims = match array {
+                Some(a) => format!("[{}]", if bindless { 1024 } else { a }),
+                None => String::new(),
+            };
+            decl = format!("typedef {} TD_res{}{};\n{}", kind, i, dims, decl);
+            features.push(if array.is_some() { "resource-array-typedef" } else { "resource-typedef" }.into());
+        }
         if rng.chance(1, 2) {
             decl.push_str("const ");
         }
-        decl.push_str(kind);
+        if via_typedef {
+            decl.push_str(&format!("TD_res{}", i));
+        } else {
+            decl.push_str(kind);
+        }
         decl.push(' ');
         decl.push_str(&name);
         if let Some(a) = array {
-            decl.push_str(&format!("[{}]", if bindless { 1024 } else { a }));
+            if !via_typedef {
+                decl.push_str(&format!("[{}]", if bindless { 1024 } else { a }));
+            }
             features.push("resource-array".into());
         }
         match (group, style) {
